@@ -654,8 +654,13 @@ fn gen_query(rng: &mut Rng, model: &Value, names: &[String]) -> String {
         _ => 3,
     };
     for round in 0..n_suffix {
-    match if round == 0 { rng.weighted(&[4, 3, 3, 4, 3, 2, 2, 2, 2, 2]) } else { rng.weighted(&[0, 3, 3, 3, 3, 2, 2, 2, 2, 2]) } {
+    match if round == 0 { rng.weighted(&[4, 3, 3, 4, 3, 2, 2, 2, 2, 2, 3]) } else { rng.weighted(&[0, 3, 3, 3, 3, 2, 2, 2, 2, 2, 3]) } {
         0 => {}
+        10 => {
+            // a bracketed selector directly under the descendant operator
+            let f = *rng.pick(&["..[?@]", "..[?@>0]", "..[?@.a]", "..[?@[0]]", "..[0]", "..[-1]", "..[1:]", "..[::2]", "..[*]", "..[?count(@.*)>0]", "..[0,1]", "..[?@!=null]"]);
+            q.push_str(f);
+        }
         9 => {
             // unions that hold a filter or a slice, nested filters, filters with sub-queries
             let n = some_name(rng);
@@ -841,6 +846,16 @@ pub fn gen_doc(rng: &mut Rng) -> Value {
     let big = rng.chance(1, 30);
     let p = if big { DocParams { max_nodes: 40 + rng.below(40), max_depth: 3 + rng.below(7), names: gen::NAMES_ADV, max_width: 10, long_arrays: true } } else { DocParams { max_nodes: if wide { 10 + rng.below(12) } else { 6 + rng.below(9) }, max_depth: if wide { 1 + rng.below(2) } else { 1 + rng.below(4) }, names: gen::NAMES_ADV, max_width: if wide { 12 } else { 4 }, long_arrays: true } };
     let mut d = gen::gen_doc(rng, &p);
+    // now and then: the document under 60-120 levels of nesting, or with a member name of a few thousand bytes
+    if rng.chance(1, 250) {
+        let levels = 60 + rng.below(61);
+        for i in 0..levels {
+            d = if i % 3 == 0 { json!({ "k": d }) } else if i % 3 == 1 { json!([d]) } else { json!({ "": d }) };
+        }
+    } else if rng.chance(1, 250) {
+        let long = format!("{}{}", rng.pick(gen::NAMES_ADV), "n".repeat(1000 + rng.below(3000)));
+        d = json!({ long: d, "a": 1 });
+    }
     // pairs of names where one is the JSON-Pointer image / escape image of another, on purpose
     if rng.chance(1, 3) {
         let mut o = Map::new();
@@ -1163,7 +1178,7 @@ pub fn run_chunk(req: &ChunkReq, findings: &[Finding]) -> ChunkOut {
 pub fn chunk_main() -> i32 {
     let mut text = String::new();
     std::io::Read::read_to_string(&mut std::io::stdin(), &mut text).expect("stdin");
-    let req: ChunkReq = match serde_json::from_str(&text) {
+    let req: ChunkReq = match crate::report::from_json(&text) {
         Ok(r) => r,
         Err(e) => {
             eprintln!("harness error: bad chunk request: {}", e);
@@ -1182,7 +1197,7 @@ pub fn chunk_main() -> i32 {
 pub fn exec_main() -> i32 {
     let mut text = String::new();
     std::io::Read::read_to_string(&mut std::io::stdin(), &mut text).expect("stdin");
-    let h: History = match serde_json::from_str(&text) {
+    let h: History = match crate::report::from_json(&text) {
         Ok(r) => r,
         Err(e) => {
             eprintln!("harness error: bad history: {}", e);
@@ -1199,13 +1214,13 @@ pub fn exec_main() -> i32 {
 
 fn spawn_chunk(req: &ChunkReq) -> Result<ChunkOut, String> {
     let out = crate::c12::spawn_with_input(&["c09-chunk"], &serde_json::to_string(req).unwrap(), 3600)?;
-    serde_json::from_str(out.trim()).map_err(|e| format!("bad chunk output: {}", e))
+    crate::report::from_json(out.trim()).map_err(|e| format!("bad chunk output: {}", e))
 }
 
 /// Executes a history in a fresh process; returns its violation, if any.
 fn exec_fresh(h: &History) -> Result<(Option<Viol>, Vec<(String, Viol)>), String> {
     let out = crate::c12::spawn_with_input(&["c09-exec"], &serde_json::to_string(h).unwrap(), 60)?;
-    let v: Value = serde_json::from_str(out.trim()).map_err(|e| format!("bad exec output: {}", e))?;
+    let v: Value = crate::report::from_json(out.trim()).map_err(|e| format!("bad exec output: {}", e))?;
     let viol: Option<Viol> = serde_json::from_value(v["viol"].clone()).map_err(|e| e.to_string())?;
     let kf: Vec<(String, Viol)> = serde_json::from_value(v["kf"].clone()).unwrap_or_default();
     Ok((viol, kf))
